@@ -68,40 +68,73 @@ def init_shape(ctx, rule='A5'):
     sup = guards.call_nodes(cfg, 'initialize_choices', pred=lambda c: 'super()' in norm(c.func))
     if not sup:
         raise AnalysisError('SupDSG.initialize_choices: super call not found')
-    tests = [n for n in cfg.nodes if n.kind == 'test' and any(m.kind == 'stmt' and isinstance(m.ast, ast.Raise)
-                                                              for m, lab in n.succ if lab == 'T')]
-    dup = [t for t in tests if 'dup' in norm(t.ast)]
-    unm = [t for t in tests if 'unmapped' in norm(t.ast)]
+    # tests whose true side always ends in a raise (directly, or after preparing the message)
+    tests = [n for n in cfg.nodes if n.kind == 'test' and [m for m, lab in n.succ if lab == 'T'] and
+             cfg.exit.id not in cfg.reachable([m for m, lab in n.succ if lab == 'T'], labels_excluded=('exc',))]
+    view = inlined_view(ctx.prog, fn)
+    unit = unit_functions(ctx.prog, fn)
+    # which raising test is the duplicate test / the unmapped test is decided by what the tested value is computed from
+    # (locals read through), not by its name:
+    #   duplicates - a list filled inside a loop over the registered mappings, or len(set(L)) against len(L) for a list
+    #   L of the mapped choice nodes;  unmapped - a set difference `set(self.choice_nodes) - <mapped>`
+    appended = {norm(c.func.value) for u in unit for lp in ast.walk(u.node)
+                if isinstance(lp, ast.For) and norm(lp.iter) == 'self._choice_mappings'
+                for c in ast.walk(lp) if isinstance(c, ast.Call) and call_name(c) == 'append' and
+                isinstance(c.func, ast.Attribute)}
+    # results of a helper spliced in / handed on: `a, b = x, y`
+    for a_ in walk_fn(view):
+        if isinstance(a_, ast.Assign) and isinstance(a_.targets[0], ast.Tuple) and isinstance(a_.value, ast.Tuple):
+            for t_, v_ in zip(a_.targets[0].elts, a_.value.elts):
+                if norm(v_) in appended:
+                    appended.add(norm(t_))
+
+    def expanded(t):
+        return norm(expand_locals(view, t.ast))
+    dup = [t for t in tests if any(isinstance(x, ast.Name) and x.id in appended for x in ast.walk(t.ast)) or
+           ('len(set(' in expanded(t) and '_choice_mappings' in expanded(t))]
+    unm = [t for t in tests if 'set(self.choice_nodes) - ' in expanded(t)]
     for nm, ts in (('duplicate', dup), ('unmapped', unm)):
         ok = bool(ts) and not cfg.can_reach(cfg.entry, sup[0], blocked_nodes=ts)
         ctx.ob(rule, fkey(fn, rule, f'{nm}-rejected-before-init'), ok, fn.where,
                f'the base initialisation runs only after the {nm}-mapping test (which raises)',
                short(ts[0].ast) if ts else 'test missing')
     # a choice is a duplicate when the *choice node* was mapped before - whatever object maps it
-    lps = [n for u in unit_functions(ctx.prog, fn) for n in build_cfg(u).nodes
+    lps = [n for u in unit for n in build_cfg(u).nodes
            if n.kind == 'for' and norm(n.ast.iter) == 'self._choice_mappings']
-    if not lps:
-        raise AnalysisError('initialize_choices: loop over the registered mappings not found')
-    tg = lps[0].ast.target
-    if isinstance(tg, ast.Tuple) and isinstance(tg.elts[0], ast.Name):
-        accepted = {tg.elts[0].id}
-    elif isinstance(tg, ast.Name):
-        accepted = {f'{tg.id}[0]'}
+    comps = [c for u in unit for c in ast.walk(u.node) if isinstance(c, (ast.ListComp, ast.SetComp, ast.GeneratorExp))
+             and len(c.generators) == 1 and norm(c.generators[0].iter) == 'self._choice_mappings']
+    if not lps and not comps:
+        raise AnalysisError('initialize_choices: scan over the registered mappings not found')
+    if lps:
+        tg = lps[0].ast.target
+        if isinstance(tg, ast.Tuple) and isinstance(tg.elts[0], ast.Name):
+            accepted = {tg.elts[0].id}
+        elif isinstance(tg, ast.Name):
+            accepted = {f'{tg.id}[0]'}
+        else:
+            raise AnalysisError('initialize_choices: unrecognised loop target over the registered mappings')
+        mem = [x for st in lps[0].ast.body for x in ast.walk(st) if isinstance(x, ast.Compare) and len(x.ops) == 1 and
+               isinstance(x.ops[0], (ast.In, ast.NotIn))]
+        ok = bool(mem) and all(norm(x.left) in accepted for x in mem)
+        where_, detail = f'{fn.module.relpath}:{lps[0].lineno}', \
+            '; '.join(short(x) for x in mem) or 'no membership test in the loop'
     else:
-        raise AnalysisError('initialize_choices: unrecognised loop target over the registered mappings')
-    mem = [x for st in lps[0].ast.body for x in ast.walk(st) if isinstance(x, ast.Compare) and len(x.ops) == 1 and
-           isinstance(x.ops[0], (ast.In, ast.NotIn))]
-    ok = bool(mem) and all(norm(x.left) in accepted for x in mem)
-    ctx.ob(rule, fkey(fn, rule, 'duplicate-keyed-by-choice-node'), ok, f'{fn.module.relpath}:{lps[0].lineno}',
+        # the list of mapped choice nodes (first element of every registered pair) compared with its own set
+        tg = comps[0].generators[0].target
+        first = norm(tg.elts[0]) if isinstance(tg, ast.Tuple) else f'{norm(tg)}[0]'
+        ok = norm(comps[0].elt) == first and bool(dup)
+        where_, detail = f'{fn.module.relpath}:{comps[0].lineno}', short(comps[0])
+    ctx.ob(rule, fkey(fn, rule, 'duplicate-keyed-by-choice-node'), ok, where_,
            'whether a supplementary choice is mapped twice is decided by looking up the choice node itself among '
-           'the choice nodes seen so far (two different mapping objects for one choice are a duplicate)',
-           '; '.join(short(x) for x in mem) or 'no membership test in the loop')
-    txt = FnText(ctx, fn)
-    ok = 'unmapped_choice_nodes = set(self.choice_nodes) - mapped_choice_nodes' in txt
+           'the choice nodes seen so far (two different mapping objects for one choice are a duplicate)', detail)
+    ok = bool(unm)
     ctx.ob(rule, fkey(fn, rule, 'unmapped-is-set-difference'), ok, fn.where,
            'the unmapped choices are all choice nodes of the supplementary graph minus the mapped ones', '')
     if unm:
-        e = intcmp.emptiness(unm[0].ast, lambda x: isinstance(x, ast.Name) and 'unmapped' in x.id)
+        diff_names = {x.id for x in ast.walk(unm[0].ast) if isinstance(x, ast.Name) and
+                      'set(self.choice_nodes) - ' in norm(expand_locals(view, x))}
+        e = intcmp.emptiness(unm[0].ast, lambda x: (isinstance(x, ast.Name) and x.id in diff_names) or
+                             'set(self.choice_nodes) - ' in norm(x))
         ctx.ob(rule, fkey(fn, rule, 'unmapped-test-nonempty'), e == 'nonempty', fn.where,
                'the unmapped test fires iff the set of unmapped choices is non-empty', short(unm[0].ast))
     add = ctx.fn(f'{SUP}:SupDSG.add_mapping')
